@@ -156,21 +156,29 @@ CHECKS = {
             "quantity distribution wrappers.",
             "57 non-compositional spellings skipped in the compound check."),
     "C14": ("exploration",
-            "environment-answer enumeration: every script of <=3 uniforms "
+            "environment-answer enumeration: every script of <=5 uniforms "
             "over an extreme/branch-reaching alphabet delivered by a scripted "
             "StreamInterface to every sampler; twin/interleaving/re-pointing "
-            "experiments on counting streams; constructor domain table",
+            "experiments on counting streams; systematic grid of extreme "
+            "parameters x extreme uniforms with a per-draw stream budget; "
+            "constructor domain table",
             "envmc",
-            "42 (class, parameter) cases reaching every sampler branch x 399 "
-            "uniform scripts each (0.0, 2^-1074, 2^-53, .25, .5, .75, "
-            "1-2^-53): no exception, value in the support, twin instance "
-            "identical in value and consumption; pairwise interleaving with 6 "
-            "partner instances; re-pointing after 0..3 draws; all parameter "
-            "tuples over a 12-value alphabet vs the documented domains.",
+            "44 (class, parameter) cases reaching every sampler branch x all "
+            "scripts of <=5 uniforms over {0.0, 2^-1074, 2^-53, .25, .5, .75, "
+            "1-2^-53} (thorough: 14 values), first and second draw: no "
+            "exception, value in the support, twin instance identical in "
+            "value and consumption; pairwise interleaving with 6 partner "
+            "instances; re-pointing after 0..3 draws; clones given their own "
+            "stream; real streams re-seeded; per class every combination of "
+            "{1e-300,1e-17,1e-3,1,1e3,1e17,1e300} parameter values x scripts "
+            "of extreme uniforms (draw returns within 100000 numbers, no "
+            "exception, no NaN, in the support); all parameter tuples over a "
+            "12-value alphabet vs the documented domains.",
             "NaN/inf parameters unspecified; a raising draw is keyed by class "
             "+ exception + raising source line + kind of triggering stream "
-            "output. The sampler crashes found here were repaired (fix: "
-            "commits), no known findings remain."),
+            "output, grid findings also by parameter regime. The sampler "
+            "defects found here were repaired (fix: commits); one known "
+            "finding remains (Pearson6 NaN for huge shapes and scale)."),
     "C18": ("model_checking",
             "explicit-state BFS over parameter trees under a real DSOLModel "
             "(reference tree = state), exhaustive set-value sequences per "
